@@ -28,6 +28,7 @@ import (
 	"fmt"
 	"os"
 	"sort"
+	"strings"
 	"sync"
 	"testing"
 
@@ -674,10 +675,11 @@ type c14Counts struct {
 	W  int `json:"wrongid"`      // member, valid signature over ANOTHER id
 	X  int `json:"corrupted"`    // member, corrupted signature
 	F  int `json:"foreignkey"`   // member address, public key and signature of a non-member
+	M  int `json:"memberkey"`    // member address, public key and signature of ANOTHER member (one member casting a second member's vote)
 	C  int `json:"collectorsig"` // the collector's own valid signature
 }
 
-func (k c14Counts) total() int   { return k.A + k.B + k.B2 + k.NM + k.W + k.X + k.F + k.C }
+func (k c14Counts) total() int   { return k.A + k.B + k.B2 + k.NM + k.W + k.X + k.F + k.M + k.C }
 func (k c14Counts) useless() int { return k.total() - k.A }
 
 // c14Variant: deterministic placement choices that the class multiset leaves open.
@@ -711,6 +713,9 @@ func c14Feasible(n, collector int, k c14Counts) bool {
 		return false
 	}
 	if k.C > 0 && collector < 0 {
+		return false
+	}
+	if k.M > 0 && voters < 2 {
 		return false
 	}
 	return true
@@ -759,6 +764,15 @@ func c14Build(path string, n, collector int, k c14Counts, v c14Variant) c14Cert 
 	}
 	for i := 0; i < k.F; i++ {
 		es = append(es, c14Entry{K: "foreignkey", Addr: next(), Key: c14OutsiderB})
+	}
+	for i := 0; i < k.M; i++ {
+		// the key (and signature) of the first voter - which has its own valid entry whenever A >= 1 - under
+		// the address of another member
+		m, key := next(), voters[0]
+		if m == key {
+			key = voters[1]
+		}
+		es = append(es, c14Entry{K: "memberkey", Addr: m, Key: key})
 	}
 	for i := 0; i < k.C; i++ {
 		es = append(es, c14Entry{K: "collectorsig", Addr: collector, Key: collector, Sig: i % 2})
@@ -809,8 +823,10 @@ func c14EachCounts(max int, f func(k c14Counts)) {
 					for w := 0; a+b+b2+nm+w <= max; w++ {
 						for x := 0; a+b+b2+nm+w+x <= max; x++ {
 							for fk := 0; a+b+b2+nm+w+x+fk <= max; fk++ {
-								for c := 0; a+b+b2+nm+w+x+fk+c <= max; c++ {
-									f(c14Counts{a, b, b2, nm, w, x, fk, c})
+								for mk := 0; a+b+b2+nm+w+x+fk+mk <= max; mk++ {
+									for c := 0; a+b+b2+nm+w+x+fk+mk+c <= max; c++ {
+										f(c14Counts{A: a, B: b, B2: b2, NM: nm, W: w, X: x, F: fk, M: mk, C: c})
+									}
 								}
 							}
 						}
@@ -847,7 +863,7 @@ type c14Stats struct {
 
 func TestC14(t *testing.T) {
 	c := hx.NewCollector("C14", "exploration",
-		"exhaustive enumeration, per validator-set size n, of all multisets (size <= n+1) of quorum-certificate signature entries over the classes {valid signature of a further distinct member, same signature repeated, second valid signature of a member already present, non-member, member signing another id, corrupted member signature, member address with a foreign key, the collector's own signature}, real P-256 signatures, submitted through CheckProposal as the smr calls it (collector known), as tdpos/xpoa CheckMinerMatch call it (collector unknown), and through Smr.handleReceivedProposal; plus CheckVote on single votes, CalVotesThreshold for all n <= 10, and random multisets (size <= n+4) for larger n. Oracle: accepted => #distinct members besides the collector with a valid signature over the certified id >= n - floor((n-1)/3) - 1. Non-trivial = the multiset contains >= 1 entry that must not count and the number of distinct valid members is exactly threshold-1 (counting the useless entry would flip the verdict); distinct = hash of (n, class multiset)",
+		"exhaustive enumeration, per validator-set size n, of all multisets (size <= n+1) of quorum-certificate signature entries over the classes {valid signature of a further distinct member, same signature repeated, second valid signature of a member already present, non-member, member signing another id, corrupted member signature, member address with a foreign (non-member) key, member address with ANOTHER member's key and signature, the collector's own signature}, real P-256 signatures, submitted through CheckProposal as the smr calls it (collector known), as tdpos/xpoa CheckMinerMatch call it (collector unknown), and through Smr.handleReceivedProposal; plus CheckVote on single votes, CalVotesThreshold for all n <= 10, and random multisets (size <= n+4) for larger n. Oracle: accepted => #distinct members besides the collector with a valid signature over the certified id >= n - floor((n-1)/3) - 1. Non-trivial = the multiset contains >= 1 entry that must not count and the number of distinct valid members is exactly threshold-1 (counting the useless entry would flip the verdict); distinct = hash of (n, class multiset)",
 		"necessary direction only: a tree that rejects more certificates is not a violation", "view / qc-tree preconditions of CheckProposal are satisfied as in a running chain (certified proposal is in the local qc tree, views adjacent)")
 	defer c.Flush(t)
 	noExclude := os.Getenv("C14_NO_EXCLUDE") == "1"
@@ -920,6 +936,7 @@ func TestC14(t *testing.T) {
 		add(k.W, "wrongid")
 		add(k.X, "corrupted")
 		add(k.F, "foreignkey")
+		add(k.M, "memberkey")
 		add(k.C, "collectorsig")
 		return ls
 	}
@@ -1039,6 +1056,10 @@ func TestC14(t *testing.T) {
 			[]c14Entry{{K: "nonmember", Addr: c14OutsiderA, Key: c14OutsiderA}},
 			[]c14Entry{{K: "nonmember", Addr: c14OutsiderA, Key: c14OutsiderA}, {K: "valid", Addr: 0, Key: 0}},
 		)
+		for m := 0; m < n && n >= 2; m++ {
+			// another member's key and signature under m's address (that member's honest vote was verified before)
+			votes = append(votes, []c14Entry{{K: "memberkey", Addr: m, Key: (m + 1) % n}})
+		}
 		if n < c14MaxN {
 			// the first key outside this validator set (a member of larger sets only)
 			votes = append(votes, []c14Entry{{K: "nonmember", Addr: n, Key: n}})
@@ -1104,7 +1125,7 @@ func TestC14(t *testing.T) {
 		c.Check(t, "qc-random", hx.N(1500, 12000), func(cs *hx.Case) {
 			rt := cs.RT()
 			n := rapid.IntRange(lo, hi).Draw(rt, "n")
-			paths := []string{"proposal", "block", "smr", "collect", "tdpos", "xpoa"}
+			paths := []string{"proposal", "block", "smr", "collect", "tdpos", "xpoa", "tdpos-term"}
 			path := rapid.SampledFrom(paths).Draw(rt, "path")
 			collector := 0
 			if path == "block" {
@@ -1146,6 +1167,7 @@ func TestC14(t *testing.T) {
 			k.W = draw("wrongid", voters > 0)
 			k.X = draw("corrupted", voters > 0)
 			k.F = draw("foreignkey", voters > 0)
+			k.M = draw("memberkey", voters > 1)
 			k.C = draw("collectorsig", collector >= 0 && path != "collect")
 			v := c14Variant{rapid.Bool().Draw(rt, "badOnPresent"), rapid.Bool().Draw(rt, "reverse"), false}
 			if !c14Feasible(n, collector, k) || !c14FeasiblePath(path, k) {
@@ -1194,6 +1216,8 @@ func TestC14(t *testing.T) {
 // c14EnumPaths: the submission paths enumerated exhaustively for a validator-set size.
 func c14EnumPaths(n int, thorough bool) []string {
 	switch {
+	case thorough && n >= 2:
+		return []string{"proposal", "block", "smr", "collect", "tdpos", "xpoa", "tdpos-term"}
 	case thorough:
 		return []string{"proposal", "block", "smr", "collect", "tdpos", "xpoa"}
 	case n >= 7:
@@ -1201,12 +1225,15 @@ func c14EnumPaths(n int, thorough bool) []string {
 	case n >= 5:
 		return []string{"proposal", "block", "smr", "collect"}
 	}
+	if n >= 2 {
+		return []string{"proposal", "block", "smr", "collect", "tdpos", "xpoa", "tdpos-term"}
+	}
 	return []string{"proposal", "block", "smr", "collect", "tdpos", "xpoa"}
 }
 
 // c14EnumVariants: the placement / order / delivery variants enumerated for (n, path).
 func c14EnumVariants(n int, path string, thorough bool) []c14Variant {
-	plugin := path == "tdpos" || path == "xpoa"
+	plugin := path == "tdpos" || path == "xpoa" || path == "tdpos-term"
 	var vs []c14Variant
 	switch {
 	case thorough && !plugin:
@@ -1233,7 +1260,11 @@ func c14EnumVariants(n int, path string, thorough bool) []c14Variant {
 // consensus plugins: tdpos / xpoa CheckMinerMatch on a block whose justify is the generated certificate.
 // Stub ledger: blocks 0..2 (block 2 = the certified proposal); the block under check has height 3, its proposer
 // (= the collector) is the validator the slot schedule wants, the validator set in force for the previous block
-// is the plugin's initial set Ring[0..n). Snapshot-derived validator sets (height >= start+3) are not modelled.
+// is the plugin's initial set Ring[0..n).
+// Path tdpos-term: blocks 0..4 (block 4 = the certified proposal, last block of term 1 so far), the block under check
+// has height 5 and sits in the first slot of term 2, for which every snapshot of the stub ledger reports an election
+// result that replaces validators 1 and 2 by the two outsider keys. The validator set in force for the certified
+// view is still Ring[0..n): signatures of the newly elected keys are "non-member" entries and must not count.
 
 type c14Block struct {
 	proposer string
@@ -1260,6 +1291,7 @@ func (b *c14Block) GetInTrunk() bool                             { return true }
 type c14Ledger struct {
 	chain []*c14Block
 	conf  []byte
+	snap  map[string][]byte // key suffix -> value answered by every snapshot (election result of path tdpos-term)
 }
 
 var errC14NoBlock = fmt.Errorf("c14 stub ledger: block not found")
@@ -1283,16 +1315,25 @@ func (l *c14Ledger) GetTipBlock() ledger.BlockHandle { return l.chain[len(l.chai
 func (l *c14Ledger) GetTipXMSnapshotReader() (ledger.XMSnapshotReader, error) {
 	return c14SnapReader{}, nil
 }
-func (l *c14Ledger) CreateSnapshot(blkId []byte) (ledger.XMReader, error) { return c14XMReader{}, nil }
-func (l *c14Ledger) GetTipSnapshot() (ledger.XMReader, error)             { return c14XMReader{}, nil }
+func (l *c14Ledger) CreateSnapshot(blkId []byte) (ledger.XMReader, error) {
+	return c14XMReader{l.snap}, nil
+}
+func (l *c14Ledger) GetTipSnapshot() (ledger.XMReader, error) { return c14XMReader{l.snap}, nil }
 
 type c14SnapReader struct{}
 
 func (c14SnapReader) Get(bucket string, key []byte) ([]byte, error) { return nil, nil }
 
-type c14XMReader struct{}
+type c14XMReader struct{ snap map[string][]byte }
 
-func (c14XMReader) Get(bucket string, key []byte) (*ledger.VersionedData, error) { return nil, nil }
+func (r c14XMReader) Get(bucket string, key []byte) (*ledger.VersionedData, error) {
+	for suffix, v := range r.snap { // suffixes are mutually exclusive: at most one matches
+		if strings.HasSuffix(string(key), suffix) {
+			return &ledger.VersionedData{PureData: &ledger.PureData{Bucket: bucket, Key: key, Value: v}, RefTxid: []byte("c14"), RefOffset: 0}, nil
+		}
+	}
+	return nil, nil
+}
 func (c14XMReader) Select(bucket string, startKey []byte, endKey []byte) (ledger.XMIterator, error) {
 	return nil, fmt.Errorf("c14 stub ledger: no iterator")
 }
@@ -1343,6 +1384,22 @@ type c14Plugin struct {
 	impl   base.ConsensusImplInterface
 	ledger *c14Ledger
 	ts     int64 // timestamp (ns) of a slot that belongs to validator 0
+	term   int64 // term / block position of that slot (stored in the checked block)
+	bpos   int64
+}
+
+// c14TermElected: path tdpos-term - the proposer set elected for term 2. Validator 0 stays (most ballots: it is the
+// producer of the checked block = the collector), validators 1 and 2 are voted out, the two outsider keys are in.
+// They are NOT validators of the certified view (last block of term 1): their signatures must not count.
+func c14TermElected(n int) []int {
+	if n == 2 {
+		return []int{0, c14OutsiderA}
+	}
+	out := []int{0}
+	for i := 3; i < n; i++ {
+		out = append(out, i)
+	}
+	return append(out, c14OutsiderA, c14OutsiderB)
 }
 
 var c14Plugins = map[string]*c14Plugin{}
@@ -1355,7 +1412,14 @@ func c14PluginOf(name string, n int) (*c14Plugin, error) {
 	addrs, _ := json.Marshal(c14Validators(n))
 	var conf string
 	var ts, ts0 int64
+	certified := 2 // height of the certified block = tip of the stub ledger
 	switch name {
+	case "tdpos-term":
+		if n < 2 {
+			return nil, fmt.Errorf("descriptor: path tdpos-term needs n >= 2")
+		}
+		certified = 4
+		fallthrough
 	case "tdpos":
 		conf = fmt.Sprintf(`{"timestamp":"%d000000","proposer_num":"%d","period":"3000","alternate_interval":"3000","term_interval":"6000","block_num":"20","vote_unit_price":"1","init_proposer":{"1":%s},"bft_config":{}}`,
 			c14TdposInitMs, n, addrs)
@@ -1372,13 +1436,36 @@ func c14PluginOf(name string, n int) (*c14Plugin, error) {
 		return nil, fmt.Errorf("unknown plugin %s", name)
 	}
 	l := &c14Ledger{conf: []byte(conf)}
-	ids := [][]byte{c14GenesisID, []byte("c14-block-at-height-one-00000001"), c14CertifiedID}
-	for h := 0; h < 3; h++ {
+	ids := [][]byte{c14GenesisID, []byte("c14-block-at-height-one-00000001")}
+	for h := 2; h < certified; h++ {
+		ids = append(ids, []byte(fmt.Sprintf("c14-block-at-height-%d-0000000000%d", h, h)))
+	}
+	ids = append(ids, c14CertifiedID)
+	for h := 0; h <= certified; h++ {
 		b := &c14Block{proposer: hx.Ring[0].Address, height: int64(h), id: ids[h], storage: []byte("{}"), ts: ts0 + int64(h)}
 		if h > 0 {
 			b.pre = ids[h-1]
 		}
+		if name == "tdpos-term" && h > 0 {
+			// blocks 1..4: consecutive slots of validator 0 in term 1 (init+6000ms is its block position 1)
+			b.ts = ts + int64(h-1)*3000*1000000
+			st, _ := json.Marshal(cbftCommon.ConsensusStorage{CurTerm: 1, CurBlockNum: int64(h)})
+			b.storage = st
+		}
 		l.chain = append(l.chain, b)
+	}
+	if name == "tdpos-term" {
+		// the election result every snapshot answers with: candidates = the elected set, ballots descending
+		nominate := map[string]map[string]int64{}
+		l.snap = map[string][]byte{}
+		for i, m := range c14TermElected(n) {
+			a := hx.Ring[m].Address
+			nominate[a] = map[string]int64{a: 1}
+			vb, _ := json.Marshal(map[string]int64{"voter": int64(1000 - i)})
+			l.snap["_vote_"+a] = vb
+		}
+		nb, _ := json.Marshal(nominate)
+		l.snap["_nominate"] = nb
 	}
 	local := hx.Ring[c14OutsiderB]
 	cctxv := cctx.ConsensusCtx{
@@ -1392,7 +1479,8 @@ func c14PluginOf(name string, n int) (*c14Plugin, error) {
 	}
 	cfg := def.ConsensusConfig{ConsensusName: name, Config: conf, StartHeight: 1, Index: 0}
 	var impl base.ConsensusImplInterface
-	if name == "tdpos" {
+	if name == "tdpos" || name == "tdpos-term" {
+		cfg.ConsensusName = "tdpos"
 		impl = tdpos.NewTdposConsensus(cctxv, cfg)
 	} else {
 		impl = xpoa.NewXpoaConsensus(cctxv, cfg)
@@ -1400,7 +1488,22 @@ func c14PluginOf(name string, n int) (*c14Plugin, error) {
 	if impl == nil {
 		return nil, fmt.Errorf("harness: cannot create a %s instance for n=%d", name, n)
 	}
-	p := &c14Plugin{impl: impl, ledger: l, ts: ts}
+	p := &c14Plugin{impl: impl, ledger: l, ts: ts, term: 1, bpos: 1}
+	if name == "tdpos-term" {
+		// the first slot of term 2 that belongs to position 0 (= validator 0, top of the ballot)
+		sch := tdpos.VerifScheduleOf(impl)
+		found := false
+		for t := ts; t < ts+int64(n+2)*25*3000*1000000; t += 3000 * 1000000 {
+			term, pos, bpos := sch.MinerScheduling(t)
+			if term == 2 && pos == 0 && bpos >= 0 {
+				p.ts, p.term, p.bpos, found = t, term, bpos, true
+				break
+			}
+		}
+		if !found {
+			return nil, fmt.Errorf("harness: no slot of term 2 found for tdpos n=%d", n)
+		}
+	}
 	c14Plugins[key] = p
 	return p, nil
 }
@@ -1414,20 +1517,21 @@ func c14RunPlugin(name string) func(d c14Cert) (bool, string, error) {
 		if err != nil {
 			return false, "", err
 		}
-		// the justify of the block: the certificate over block 2, stored the way ProcessBeforeMiner stores it
+		// the justify of the block: the certificate over the tip block, stored the way ProcessBeforeMiner stores it
+		tip := int64(len(p.ledger.chain) - 1)
 		j := c14Justify(d)
-		j.VoteInfo.ProposalView = 2
-		j.VoteInfo.ParentId = p.ledger.chain[1].id
-		j.VoteInfo.ParentView = 1
+		j.VoteInfo.ProposalView = tip
+		j.VoteInfo.ParentId = p.ledger.chain[tip-1].id
+		j.VoteInfo.ParentView = tip - 1
 		old, err := cbftCommon.NewToOldQC(j)
 		if err != nil {
 			return false, "", err
 		}
-		storage, err := json.Marshal(cbftCommon.ConsensusStorage{Justify: old, CurTerm: 1, CurBlockNum: 1})
+		storage, err := json.Marshal(cbftCommon.ConsensusStorage{Justify: old, CurTerm: p.term, CurBlockNum: p.bpos})
 		if err != nil {
 			return false, "", err
 		}
-		blk := &c14Block{proposer: hx.Ring[0].Address, height: 3, id: c14ProposalID, pre: c14CertifiedID, storage: storage, ts: p.ts}
+		blk := &c14Block{proposer: hx.Ring[0].Address, height: tip + 1, id: c14ProposalID, pre: c14CertifiedID, storage: storage, ts: p.ts}
 		ok, e := p.impl.CheckMinerMatch(&xctx.BaseCtx{XLog: c14NopLog{}, Timer: timer.NewXTimer()}, blk)
 		if ok && e == nil {
 			return true, name + " CheckMinerMatch = true", nil
@@ -1439,4 +1543,5 @@ func c14RunPlugin(name string) func(d c14Cert) (bool, string, error) {
 func init() {
 	c14ExtraPaths["tdpos"] = c14RunPlugin("tdpos")
 	c14ExtraPaths["xpoa"] = c14RunPlugin("xpoa")
+	c14ExtraPaths["tdpos-term"] = c14RunPlugin("tdpos-term")
 }
